@@ -216,6 +216,19 @@ class Relay(evx.System):
     import carbon.client
     importlib.reload(carbon.client)
     import carbon.service       # noqa (plugins registered, state.events wired)
+    # the limits carbon.client derives at import are the ones the relay's real start-up leaves behind (options parsed, service
+    # tree built, mc/daemonconf.py): if the daemon imports the module before carbon.conf is read, they are the defaults'
+    from . import daemonconf
+    started = daemonconf.effective('carbon-relay', {
+      'DESTINATIONS': '127.0.0.1:2004:a', 'RELAY_METHOD': 'consistent-hashing', 'MAX_QUEUE_SIZE': repr(p['max_queue']),
+      'USE_FLOW_CONTROL': repr(bool(p.get('flow', True))), 'QUEUE_LOW_WATERMARK_PCT': repr(p.get('low_pct', 0.8)),
+      'MAX_QUEUE_SIZE_HARD_PCT': '1.25'}, keys=['MAX_QUEUE_SIZE'], build_service=True)
+    frozen = started.get(daemonconf.FROZEN_KEY) or {}
+    for name in ('SEND_QUEUE_HARD_MAX', 'SEND_QUEUE_LOW_WATERMARK'):
+      v = frozen.get('client.' + name, daemonconf.MISSING)
+      if v == daemonconf.MISSING:
+        raise RuntimeError('the relay start-up did not leave carbon.client.%s behind' % name)
+      setattr(carbon.client, name, daemonconf._dec(v))
     self.settings = settings
     self.client = carbon.client
     self.low_watermark = p['max_queue'] * p.get('low_pct', 0.8)
